@@ -3,6 +3,7 @@ The encoders of `encode.rs` on top of the bit-buffer law: for every payload of t
 `encode_numeric` / `encode_alphanumeric` / `encode_byte` append exactly the ISO 7.4 segment bits
 (mode indicator, character count, payload groups), without traps.
 -/
+import FastQr.Props.C05Tables
 import FastQr.Proofs.CompactSound
 import FastQr.Props.C09
 import FastQr.Model.Encode
